@@ -34,6 +34,8 @@ def plan(tier, seed):
         for g in ([fams[0:4], fams[4:8], fams[8:]] if tier == 'quick' else [[f] for f in fams]):
             sp.append({'year': y, 'families': g, 'n': n})
         sp.append({'kind': 'edges', 'year': y})
+        for part in range(1 if tier == 'quick' else 4):
+            sp.append({'year': y, 'directed': True, 'n': 1 if tier == 'quick' else 10, 'part': part})
     return sp
 
 
@@ -99,8 +101,9 @@ def run_shard(spec, tier, seed):
         run_edges(spec, tier, seed, res)
         return res
     rng = rng_for('C16', seed, spec)
-    for fam in spec['families']:
-        for p in scen.personas(seed, year, fam, spec['n']):
+    todo = list(scen.directed_personas(year, f"{seed}:{spec['part']}" if spec.get('part') else seed, spec['n'])) if spec.get('directed') else [(fam, p) for fam in spec['families'] for p in scen.personas(seed, year, fam, spec['n'])]
+    for fam, p in todo:
+        if True:
             out = scen.solve_persona(p)
             if out.exc is not None or out.ret is not True:
                 res.count('unsolved_bases')
@@ -246,6 +249,28 @@ def run_shard(spec, tier, seed):
                         return f'{k} +{inc} moved refund-minus-owed by {d1 - d0:.2f}'
                     return None
                 compare(f'withholding+:{inc}', ans, chk, re.sub(r':\d+', '', k))
+            # ---- (c') the same for N.C. tax withheld (W-2 box 17 / the state boxes of the 1099s, when the state is NC)
+            if 'nc_d-400.23' in base or 'nc_d-400.25' in base:
+                pairs = ((r'^w-2:\d+\.box_17$', 'box_15'), (r'^1099-int:\d+\.box_17_1$', 'box_15_1'), (r'^1099-div:\d+\.box_16_1$', 'box_14_1'),
+                         (r'^1099-g:\d+\.box_11_1$', 'box_10a_1'), (r'^1099-r:\d+\.box_14_1$', 'box_14_1_state'))
+                swh = []
+                for k in sorted(base_ans):
+                    for pat, statebox in pairs:
+                        if re.match(pat, k) and base_ans.get(k.split('.')[0] + '.' + statebox, '').strip().upper() == 'NC':
+                            swh.append(k)
+                for k in (swh if tier != 'quick' else rng.sample(swh, min(3, len(swh)))):
+                    inc = rng.choice([1, 10, 250])
+                    ans = dict(base_ans)
+                    ans[k] = f'{fnum(ans[k]) + inc:.2f}'
+
+                    def chk(t, k=k, inc=inc):
+                        d0 = base.get('nc_d-400.28', 0.0) - base.get('nc_d-400.26a', 0.0)
+                        d1 = t.get('nc_d-400.28', 0.0) - t.get('nc_d-400.26a', 0.0)
+                        if abs((d1 - d0) - inc) > 0.51:
+                            return f'{k} +{inc} (N.C. tax withheld, owner {base_ans.get(k.split(".")[0] + ".belongs_to")}) moved the N.C. overpayment-minus-tax-due by {d1 - d0:.2f}'
+                        return None
+                    compare(f'withholding+:{inc}', ans, chk, 'nc:' + re.sub(r':\d+', '', k))
+                    res.count('pairs_nc_withholding+')
             if len(res.samples) < 1:
                 res.sample({'persona': p.describe(), 'pairs_compared_so_far': res.counters.get('pairs_compared', 0)})
     return res
